@@ -728,7 +728,13 @@ def correspondence(ctx) -> C.Part:
             P.notes.append("alpha correspondence: time budget reached")
             break
         fs, fmin_u, fmax_u, alpha = c["fs"], c["fmin"], c["fmax"], c["alpha"]
-        g = make_gen(c, capture=True)
+        try:
+            g = make_gen(c, capture=True)
+        except Exception as ex:
+            P.cases += 1
+            P.disagreements.append({"op": "corners", "what": f"real alpha_noise constructor raised {ex!r} on in-range parameters",
+                                    "case": {"kind": "alpha", "fs": fs, "fmin": fmin_u, "fmax": fmax_u, "alpha": alpha}})
+            continue
         cap = getattr(g, "_cap", None)
         r = drv.ask(f"corners {C.f2h(fmin_u)} {C.f2h(fmax_u)} {C.f2h(alpha)}")
         if r.startswith("ERR"):
@@ -808,7 +814,12 @@ def correspondence(ctx) -> C.Part:
                 break
             c = fft_case(rng, N)
             f_in = np.array(c["f"].real if c["dtype"] == "float" else c["f"], dtype=(float if c["dtype"] == "float" else complex))
-            x = noise.fftnoise(f_in, rng=np.random.default_rng(c["seed"]))
+            try:
+                x = noise.fftnoise(f_in, rng=np.random.default_rng(c["seed"]))
+            except Exception as ex:
+                P.cases += 1
+                P.disagreements.append({"op": "fftspec", "what": f"real fftnoise raised {ex!r}; the model is total for N >= 2", "case": fft_dump(c)})
+                continue
             Np = (N - 1) // 2
             ph = np.random.default_rng(c["seed"]).random(Np) * 2.0 * np.pi if Np > 0 else np.zeros(0)
             rot = np.cos(ph) + 1j * np.sin(ph)
@@ -841,7 +852,13 @@ def correspondence(ctx) -> C.Part:
             if ctx.time_left() < 30:
                 break
             captured.clear()
-            noise.band_limited_noise(c["lo"], c["hi"], samples=c["N"], samplerate=c["fs"], rng=np.random.default_rng(c["seed"]))
+            try:
+                noise.band_limited_noise(c["lo"], c["hi"], samples=c["N"], samplerate=c["fs"], rng=np.random.default_rng(c["seed"]))
+            except Exception as ex:
+                if "F" not in captured:
+                    P.cases += 1
+                    P.disagreements.append({"op": "bandmask", "what": f"real band_limited_noise raised {ex!r} on a valid band", "case": band_dump(c)})
+                    continue
             if "F" not in captured:
                 P.notes.append("band_limited_noise no longer calls noise.fftnoise through the module global: mask correspondence skipped")
                 break
@@ -862,6 +879,8 @@ def correspondence(ctx) -> C.Part:
                 P.disagreements.append({"op": "bandmask", "what": "shape / values", "case": band_dump(c)})
                 continue
             diff = (mm != im)
+            if c["exact"]:
+                near = np.zeros(c["N"], dtype=bool)       # binary grid: every bin frequency and edge is exact, nothing is decided by rounding
             if (diff & ~near).any():
                 k = int(np.argmax(diff & ~near))
                 P.disagreements.append({"op": "bandmask", "bin": k, "impl": bool(im[k]), "model": bool(mm[k]), "freq": float(fk[k]), "case": band_dump(c)})
